@@ -12,6 +12,8 @@ for m in sorted(glob.glob(os.path.join(V, "seeded", "*", "meta.json"))):
     rows.append("| %s | %s | %s | %s | %s |" % (d["id"], d["property"], ", ".join(files), esc(d["needs_to_manifest"])[:220], esc(det)))
 p = os.path.join(V, "DESIGN.md")
 s = open(p).read()
-s = re.sub(r"<!-- SEEDTABLE BEGIN -->.*?<!-- SEEDTABLE END -->", "<!-- SEEDTABLE BEGIN -->\n" + "\n".join(rows) + "\n<!-- SEEDTABLE END -->", s, flags=re.S)
+a = s.index("<!-- SEEDTABLE BEGIN -->")
+b = s.index("<!-- SEEDTABLE END -->")
+s = s[:a] + "<!-- SEEDTABLE BEGIN -->\n" + "\n".join(rows) + "\n" + s[b:]
 open(p, "w").write(s)
 print(len(rows) - 2, "seeded changes")
